@@ -12,7 +12,8 @@ Definition R_fn (f : fn) (v : R) : R :=
   | FId => v | FSig => sigmoid v | FAbs => Rabs v | FSign => sign v
   | FExp => exp v | FSin => sin v | FCos => cos v | FTanh => tanh v
   end.
-Definition RO : ops R := mkops R 0 1 Rplus Rminus Rmult Ropp R_fn.
+Definition R_fn2 (g : fn2) (u v : R) : R := match g with FMax => Rmax u v | FMin => Rmin u v end.
+Definition RO : ops R := mkops R 0 1 Rplus Rminus Rmult Ropp R_fn R_fn2 (/ 2).
 
 Lemma RO_ring : ring_theory (o0 RO) (o1 RO) (oadd RO) (omul RO) (osub RO) (oopp RO) eq.
 Proof. exact RTheory. Qed.
@@ -25,6 +26,7 @@ Fixpoint smooth (e : expr R) : bool :=
   | Add a b | Sub a b | Mul a b => smooth a && smooth b
   | Neg a | PowN a _ => smooth a
   | Fn f a => smoothf f && smooth a
+  | Fn2 _ _ _ => false          (* max / min are not differentiable at a tie *)
   end.
 
 Lemma is_derive_eq (f : R -> R) x l l' : l = l' -> is_derive f x l -> is_derive f x l'.
@@ -84,7 +86,7 @@ Lemma dual_is_derive r x e : smooth e = true ->
 Proof.
   assert (Hfst : forall e', evR (upd r x (r x)) e' = fst (evDR (seed RO r x) e')).
   { intro e'. rewrite (D_dual R RO RO_ring). cbn [fst]. apply eval_ext, upd_same. }
-  induction e as [c|a|e1 IH1 e2 IH2|e1 IH1 e2 IH2|e1 IH1 e2 IH2|e1 IH1|e1 IH1 k|f e1 IH1]; cbn [smooth eval]; intro Hs.
+  induction e as [c|a|e1 IH1 e2 IH2|e1 IH1 e2 IH2|e1 IH1 e2 IH2|e1 IH1|e1 IH1 k|f e1 IH1|g e1 IH1 e2 IH2]; cbn [smooth eval]; intro Hs.
   - apply (is_derive_const c (r x)).
   - unfold seed, upd. cbn [snd]. destruct (atom_eqb a x).
     + apply (is_derive_id (r x)).
@@ -103,6 +105,7 @@ Proof.
   - apply andb_prop in Hs as [Hf Hs].
     eapply is_derive_eq; [|apply (is_derive_comp (R_fn f) _ _ _ _ (fn_derive f _ Hf) (IH1 Hs))].
     cbn [dual_ops ofn snd fst RO omul]. rewrite Hfst. apply scal_R.
+  - discriminate.
 Qed.
 
 (* D is the derivative: for every smooth expression, every environment r and every atom x (a state variable now, or a
